@@ -10,7 +10,7 @@
     std <keys a method needs> <keys an annotated variable needs>   → ok  (applies to the modules defined afterwards)
     init                                               → ok      (fresh process: empty state, empty private cache directory)
     load m | transpile m | unload m                    → <observation>
-    resubmit <syntaxOk> <imports> <classes> <vars>     → <observation>
+    resubmit <syntaxOk> <imports> <classes> <vars> [<exprs n,n | ->]   → <observation>   (exprs: top-level `print(n)` statements)
 
   observation = result|mods|entrypoints|completed|m=keys,…|dependency frames|procedure frames
   result = ok | text | <exc_enum>
@@ -111,6 +111,10 @@ def step' (d : DSt) : List String → DSt × String
         | some t => s!"imports|{commas (descLang.imports t)}"
         | none => "imports|none")
   | ["resubmit", ok, imps, clss, vars] => doOp d (.resubmit (parseDesc d.std ok imps clss vars "0"))
+  | ["resubmit", ok, imps, clss, vars, exprs] =>
+    if (splitNonEmpty exprs ",").all (fun x => x.isNat) then
+      doOp d (.resubmit { parseDesc d.std ok imps clss vars "0" with exprs := (splitNonEmpty exprs ",").map String.toNat! })
+    else (d, "bad-op")
   | _ => (d, "bad-op")
 
 def run : IO Unit := runFamily step' ({} : DSt)
